@@ -103,13 +103,15 @@ pub fn judge_c04(c: &C04Case, p: &Probe) -> Judge {
         let b = bad_tag_byte((c.salt.wrapping_mul(i as u64 + 1) >> 11) as usize);
         let mut m = bytes.clone();
         m[*pos] = b;
-        p.extra_eval(1);
-        match parse_blocking(&m) {
-            Outcome::Ok { .. } => return Err(Fail::new("C04/bad-tag-accepted", format!("byte {b:#04x} at tag position {pos} was accepted (skipped); bytes={}", hex_short(&m)))),
-            Outcome::Panic(s) => return Err(Fail::new(format!("C04/bad-tag-{s}"), format!("byte {b:#04x} at tag position {pos} made the parser panic; bytes={}", hex_short(&m)))),
-            Outcome::InvalidTag(t) if t == b => {}
-            Outcome::InvalidTag(t) => return Err(Fail::new("C04/bad-tag-misreported", format!("byte {b:#04x} at tag position {pos} rejected as InvalidTag({t:#04x})"))),
-            _ => {}
+        p.extra_eval(2);
+        for (which, out) in [("blocking", parse_blocking(&m)), ("async", parse_async(&m, Schedule::whole()))] {
+            match out {
+                Outcome::Ok { .. } => return Err(Fail::new("C04/bad-tag-accepted", format!("{which} parser: byte {b:#04x} at tag position {pos} was accepted (skipped or taken for a value); bytes={}", hex_short(&m)))),
+                Outcome::Panic(s) => return Err(Fail::new(format!("C04/bad-tag-{s}"), format!("{which} parser: byte {b:#04x} at tag position {pos} made the parser panic; bytes={}", hex_short(&m)))),
+                Outcome::InvalidTag(t) if t == b => {}
+                Outcome::InvalidTag(t) => return Err(Fail::new("C04/bad-tag-misreported", format!("{which} parser: byte {b:#04x} at tag position {pos} rejected as InvalidTag({t:#04x})"))),
+                _ => {}
+            }
         }
     }
     Ok(())
@@ -132,6 +134,9 @@ pub fn judge_c04_seq(seq: &[u8]) -> (Judge, &'static str) {
     let first_bad = seq.iter().position(|t| *t as usize == BAD_TOKEN);
     if let Some(b) = first_bad {
         if first_end.map(|e| b < e).unwrap_or(true) {
+            if parse_async(&bytes, Schedule::whole()).is_ok() {
+                return (Err(Fail::new("C04/bad-tag-accepted", format!("async parser: token sequence {:?} with a bad tag byte before the end tag was accepted", seq_json(seq).to_string()))), "bad-tag");
+            }
             return match out {
                 Outcome::Ok { .. } => (Err(Fail::new("C04/bad-tag-accepted", format!("token sequence {:?} with a bad tag byte before the end tag was accepted", seq_json(seq).to_string()))), "bad-tag"),
                 Outcome::Panic(s) => (Err(Fail::new(format!("C04/seq-{s}"), format!("token sequence {:?} panicked", seq_json(seq).to_string()))), "bad-tag"),
